@@ -2,11 +2,11 @@ module ytcheck
 
 go 1.24.1
 
-require github.com/rkosegi/yaml-toolkit v0.0.0
-
 require (
-	github.com/google/go-cmp v0.7.0 // indirect
-	gopkg.in/yaml.v3 v3.0.1 // indirect
+	github.com/rkosegi/yaml-toolkit v0.0.0
+	gopkg.in/yaml.v3 v3.0.1
 )
+
+require github.com/google/go-cmp v0.7.0 // indirect
 
 replace github.com/rkosegi/yaml-toolkit => /repo
